@@ -28,6 +28,7 @@ func isPK(t types.Type) bool {
 }
 
 func c03(r *Report) {
+	defer c03Seed8(r)
 	defer c03Seed7(r)
 	defer c03Seed5(r)
 	defer c03Seed6(r)
